@@ -420,7 +420,8 @@ Record merge_args := mkmerge {
   ma_backup : bool;
   ma_format : docfmt;
   ma_mode : mdmode;
-  ma_out_ext : string      (* Path(final output name).suffix.lower(), "" when there is none *)
+  ma_out_ext : string;     (* Path(final output name).suffix.lower(), "" when there is none *)
+  ma_config_err : option string   (* the class MergerConfig(log, args) raises on the --config file, if any *)
 }.
 
 (* Oracles about documents (states are abstract ids):
@@ -622,10 +623,11 @@ Section Merge.
           else mkrun (Exit 0) (vb ++ [ODump is_json dumps]) fx
     end.
 
+  (* [ma_config_err a] = how MergerConfig(log, args) - configparser reading the --config file - ends *)
   Definition cli_merge_main (estr : nat) (a : merge_args) (tty : bool) (srcs : list source) (stdin_src : source) : crun :=
     let '(nerr, vlines, n') := merge_validate a (List.length srcs) (map s_name srcs) tty in
     if negb (Nat.eqb nerr 0) then mkrun (Exit 1) vlines []
-    else
+    else match ma_config_err a with Some c => mkrun (Uncaught (UCrash c)) vlines [] | None =>
       let to_file := nonempty (ma_overwrite a) || nonempty (ma_output a) in
       let crash u nh := mkrun (Uncaught u) (vlines ++ hints nh) [] in
       match merge_loop estr (ma_mode a) srcs [] 0 false 0 with
@@ -670,7 +672,8 @@ Section Merge.
                   else mkrun (Exit st3) (vlines ++ hints nh3) []
               end
           end
-      end.
+      end
+    end.
 End Merge.
 
 (* ------------------------------------------------------------------ *)
